@@ -272,8 +272,20 @@ class QvmCode(BaseCode):
     def add_data(self, label, data: list):
         self._data[label].extend(data)
 
-    def get_data_label_index(self, label):
-        return list(self._data.keys()).index(label)
+    def get_data_label_index(self, label, label_order=()):
+        parts = list(self._data.keys())
+        if label in parts:
+            return parts.index(label)
+
+        # The label has no DATA of its own: continue with the first DATA
+        # statement after it, which is filed under the first later label
+        # that has DATA.  Without any, point past the last part so that
+        # the next READ runs out of data.
+        if label in label_order:
+            for later in label_order[label_order.index(label) + 1:]:
+                if later in parts:
+                    return parts.index(later)
+        return len(parts)
 
     def add_user_type(self, type_block):
         self._user_types[type_block.name] = type_block
@@ -1816,7 +1828,8 @@ def gen_restore_stmt(node, code, codegen):
         target = ''
 
     if target:
-        label_index = code.get_data_label_index(target)
+        label_index = code.get_data_label_index(
+            target, codegen.compilation.label_order)
     else:
         # rewind to the first item of the first DATA statement
         label_index = 0
